@@ -651,6 +651,7 @@ fn main()
     let nrand = if deep { 1500 } else { 250 };
     for k in 0..nrand
     {
+        let ok = std::panic::catch_unwind(std::panic::AssertUnwindSafe(|| {
         let n = if k % 10 == 9 { rng.range(33, if deep { 70 } else { 40 }) as usize } else { rng.range(3, 12) as usize };
         let ts = if k % 2 == 0 { random_tab(&mut rng, n) } else { text(&random_state(&mut rng, n, 3 * n)) };
         op_words(&mut out, &ts);
@@ -681,6 +682,8 @@ fn main()
             let q = rng.below(n as u64) as usize;
             op_gate(&mut out, &sc, "H", &[q]);
         }
+        })).is_ok();
+        out.case("stream random-tableaux", if ok { "ok" } else { "panic" });
     }
 
     // 5. random Clifford circuits with measurements and resets
@@ -688,13 +691,15 @@ fn main()
     for _ in 0..ncirc
     {
         let n = rng.range(5, 8) as usize;
-        circuits(&mut out, &mut rng, n, 40);
+        let ok = std::panic::catch_unwind(std::panic::AssertUnwindSafe(|| circuits(&mut out, &mut rng, n, 40))).is_ok();
+        out.case("stream circuits", if ok { "ok" } else { "panic" });
     }
     let nwide = if deep { 6 } else { 1 };
     for _ in 0..nwide
     {
         let n = rng.range(65, 68) as usize;
-        circuits(&mut out, &mut rng, n, 25);
+        let ok = std::panic::catch_unwind(std::panic::AssertUnwindSafe(|| circuits(&mut out, &mut rng, n, 25))).is_ok();
+        out.case("stream wide-circuits", if ok { "ok" } else { "panic" });
     }
 
     // 6. Clifford-only combinator gates (Composite via add_gate and from_string, Kron, Loop, nesting) through apply_gate
@@ -733,6 +738,7 @@ fn main()
     for &n in [31usize, 32, 33, 63, 64, 65, 66, 95, 96, 97, 128, 129].iter()
     {
         if !deep && n > 97 && n != 128 { continue; }
+        let ok = std::panic::catch_unwind(std::panic::AssertUnwindSafe(|| {
         let marks: Vec<usize> = [0usize, 15, 31, 32, 33, 63, 64, 65, 95, 96, n - 2, n - 1].iter().cloned().filter(|&q| q < n).collect();
         let mut t = StabilizerTableau::new(n);
         // signs: X / Y / Z on a third of the marked qubits and a few random ones
@@ -780,6 +786,104 @@ fn main()
             if a != b { if rng.coin() { t2.verif_multiply_row(a, b); } else { t2.verif_swap_rows(a, b); } }
         }
         op_norm(&mut out, &text(&t2));
+        })).is_ok();
+        out.case("stream word-boundaries", if ok { "ok" } else { "panic" });
+    }
+
+    // 9. circuit level: the automatic choice of representation against an explicit vector run, same seed
+    {
+        use q1t_harness::sim;
+        let ncirc = if deep { 3000 } else { 500 };
+        let t_hex = "T";
+        let rx = format!("RX {}", fbits(0.7));
+        for k in 0..ncirc
+        {
+            let det = k % 2 == 0;
+            let nq = rng.range(1, 3) as usize;
+            let nc = nq + 1;
+            let mut ops: Vec<String> = vec![];
+            let nops = rng.range(3, 9) as usize;
+            for _ in 0..nops
+            {
+                let q = rng.below(nq as u64) as usize;
+                let q2 = if nq > 1 { let mut b = rng.below(nq as u64 - 1) as usize; if b >= q { b += 1; } b } else { q };
+                let c = rng.below(nc as u64) as usize;
+                let kind = rng.below(10);
+                let one_det = ["X", "Y", "Z", "S", "Sdg", "I"][rng.below(6) as usize];
+                let one_any = ["H", "V", "Vdg", "X", "S", "Y"][rng.below(6) as usize];
+                let nonclif = if rng.coin() { t_hex.to_string() } else if det { "Tdg".to_string() } else { rx.clone() };
+                let op = match kind
+                {
+                    0 | 1 => format!("gate 1 {} {}", q, if det { one_det } else { one_any }),
+                    2 => if nq > 1 { format!("gate 2 {} {} {}", q, q2, ["CX", "CZ", "Swap", "CY"][rng.below(if det { 3 } else { 4 }) as usize]) } else { format!("gate 1 {} Z", q) },
+                    3 | 4 => format!("measure {} {} Z", q, c),
+                    // classically controlled non-Clifford gate: the circuit is not a stabilizer circuit
+                    5 | 6 => format!("cond 1 {} {} 1 {} {}", c, rng.below(2), q, nonclif),
+                    // classically controlled Clifford gate
+                    7 => format!("cond 1 {} {} 1 {} {}", c, rng.below(2), q, if det { "X" } else { "H" }),
+                    8 => format!("reset {}", q),
+                    _ => if rng.below(3) == 0 { format!("gate 1 {} {}", q, nonclif) } else { format!("gate 1 {} {}", q, if det { "X" } else { "H" }) }
+                };
+                ops.push(op);
+            }
+            for q in 0..nq { ops.push(format!("measure {} {} Z", q, q)); }
+            let ct = sim::CircuitText { nq, nc, ops: ops.clone() };
+            let shots = 6;
+            let seed = rng.next();
+            let cls = |r: &Option<q1tsim::error::Result<()>>| match r {
+                None => "panic".to_string(),
+                Some(Ok(())) => "ok".to_string(),
+                Some(Err(e)) => format!("err:{}", sim::show_err(e).replace(' ', "_")) };
+            let ans = match sim::build(&ct)
+            {
+                Err(e) => format!("build-error {}", sim::show_err(&e)),
+                Ok(mut c1) => {
+                    let isstab = c1.is_stabilizer_circuit();
+                    let ra = sim::execute_traced(&mut c1, nq, shots, seed, "auto");
+                    let mut c2 = sim::build(&ct).unwrap();
+                    let rv = sim::execute_traced(&mut c2, nq, shots, seed, "vector");
+                    let reg = |r: &sim::Run| r.final_cstate.as_ref().map(|v| join(v).replace(' ', ",")).unwrap_or("-".to_string());
+                    format!("isstab {} auto {} vec {} rega {} regv {}", isstab, cls(&ra.result), cls(&rv.result), reg(&ra), reg(&rv))
+                }
+            };
+            out.case(&format!("auto {} {} {} | {}", if det { "det" } else { "rnd" }, nq, nc, ops.join(" ; ")), &ans);
+        }
+    }
+
+    // 10. range-level histories on StabilizerState: two random measurements, reset of the first qubit, read-out
+    {
+        use rand::SeedableRng;
+        let nh = if deep { 400 } else { 60 };
+        for k in 0..nh
+        {
+            let n = 2 + (k % 2);
+            let shots = rng.range(8, 24) as usize;
+            let seed = rng.next();
+            let peek = k % 4 >= 2;
+            let r = guarded(std::panic::AssertUnwindSafe(|| {
+                let mut r = rand::rngs::StdRng::seed_from_u64(seed);
+                let mut s = StabilizerState::new(n, shots);
+                let mut res = ndarray::Array1::<u64>::zeros(shots);
+                let mut e = s.apply_gate(&H::new(), &[0]);
+                if e.is_ok() { e = s.apply_gate(&H::new(), &[1]); }
+                if e.is_ok() { e = s.measure_into(0, 0, &mut res, &mut r); }
+                if e.is_ok() { e = s.measure_into(1, 1, &mut res, &mut r); }
+                if e.is_ok() { e = s.reset(0, &mut r); }
+                if e.is_ok() { e = if peek { s.peek_into(1, 2, &mut res, &mut r) } else { s.measure_into(1, 2, &mut res, &mut r) }; }
+                match e
+                {
+                    Err(e) => show_err(&e),
+                    Ok(()) => match s.verif_snapshot()
+                    {
+                        q1tsim::verif::Snapshot::Stabilizer { counts, tableaus, .. } =>
+                            format!("words {} | snap {}", join(&res.to_vec()),
+                                counts.iter().zip(tableaus.iter()).map(|(c, t)| format!("{}:{}", c, t.replace('\n', ","))).collect::<Vec<_>>().join(" ")),
+                        _ => "no-snapshot".to_string()
+                    }
+                }
+            }));
+            out.case(&format!("hist {} {} {}", n, shots, if peek { "peek" } else { "measure" }), &match r { Ok(a) => a, Err(e) => e });
+        }
     }
 
     let n = out.finish();
